@@ -47,6 +47,7 @@ var verifSends int        // number of SendPacket calls so far
 var verifLastFace uint64  // face of the last SendPacket call
 var verifLastToken []byte // PIT token attached to the last packet sent
 var verifSentSet map[uint64]bool // set of faces a packet has been handed to
+var verifCsInserts int            // number of Data packets handed to the Content Store so far
 
 // Every transmission goes through dispatch.Face.SendPacket. Its precondition is the scope rule, so every call site
 // in the forwarder, present or added later, carries the obligation "not (non-local face and /localhost name)".
@@ -99,6 +100,13 @@ func specIsNexthop(nexthops []*table.FibNextHopEntry, n int, k uint64) bool {
 var _ = dispatch.GetFace
 var _ table.PitEntry
 
+// The Content Store as the pipelines see it: every insertion is counted in ghost state, so that "a /localhost Data from
+// a non-local face is not cached" is a postcondition of the incoming Data pipeline.
+//
+//@ func (github.com/named-data/ndnd/fw/table.PitCsTable).InsertData
+//@   modifies verifCsInserts, all(table.nameTreePitEntry), all(table.pitCsTreeNode), all(table.PitCsTree), all(table.baseCsEntry)
+//@   ensures verifCsInserts == old(verifCsInserts)+1
+
 // Incoming pipelines. "Never accepted from a non-local face": a /localhost packet from a non-local face is dropped
 // before it is counted, looked up, inserted anywhere or forwarded (NInInterests / the PIT-CS are untouched: the
 // counter is the first thing an accepted Interest changes; for Data the drop precedes the CS insertion and the PIT lookup).
@@ -117,8 +125,9 @@ var _ table.PitEntry
 //@   requires packet != nil && packet.L3 != nil && packet.L3.Data != nil && packet.L3.Interest == nil && sameSlice(packet.Name, packet.L3.Data.NameV)
 //@   assume t.pitCS != nil && t.deadNonceList != nil && t.deadNonceList.list != nil && t.strategies != nil && table.FibStrategyTable != nil
 //@   assume forall(func(k uint64) bool { return t.strategies[k] != nil })
-//@   modifies verifSends, verifLastFace, verifLastToken, verifSentSet[*], all(table.nameTreePitEntry), all(table.pitCsTreeNode), all(table.PitCsTree), all(table.basePitEntry), all(table.baseCsEntry), all(table.PitOutRecord), all(table.PitInRecord), t.deadNonceList.expirationQueue.pq, t.deadNonceList.list[*], t.NInData, t.NOutData, t.NSatisfiedInterests
-//@   ensures [reject-nonlocal-localhost] old(packet.IncomingFaceID != nil && dispatch.GetFace(*packet.IncomingFaceID) != nil && dispatch.GetFace(*packet.IncomingFaceID).Scope() == defn.NonLocal && len(packet.Name) > 0 && specIsLocalhost(packet.L3.Data.NameV)) ==> t.NOutData == old(t.NOutData) && t.deadNonceList.list == old(t.deadNonceList.list)
+//@   modifies verifSends, verifLastFace, verifLastToken, verifSentSet[*], all(table.nameTreePitEntry), all(table.pitCsTreeNode), all(table.PitCsTree), all(table.basePitEntry), all(table.baseCsEntry), all(table.PitOutRecord), all(table.PitInRecord), t.deadNonceList.expirationQueue.pq, t.deadNonceList.list[*], t.NInData, t.NOutData, t.NSatisfiedInterests, verifCsInserts
+//@   ensures [reject-nonlocal-localhost] old(packet.IncomingFaceID != nil && dispatch.GetFace(*packet.IncomingFaceID) != nil && dispatch.GetFace(*packet.IncomingFaceID).Scope() == defn.NonLocal && len(packet.Name) > 0 && specIsLocalhost(packet.L3.Data.NameV)) ==> t.NOutData == old(t.NOutData) && t.deadNonceList.list == old(t.deadNonceList.list) && verifCsInserts == old(verifCsInserts) && verifSends == old(verifSends)
+//@   loop 3 invariant [downstreams-are-pending] forall(func(k uint64) bool { return mapHas(downstreams, k) ==> visited(k) })
 
 // ---------------------------------------------------------------------------------------
 // C01 / C02: strategies (what is sent where), stated over the ghost send trace
